@@ -24,6 +24,8 @@ func init() {
 			ruleC18T7(r, le)
 			ruleC18T8(r)
 			ruleNoSwallowedErrors(r, "T9", 5, true, "/transport/reconnect")
+			ruleC18T10(r)
+			ruleC18T11(r)
 		},
 	})
 }
@@ -458,5 +460,96 @@ func ruleC18T8(r *Run) {
 		}
 		w := reachesFromEntryWithout(fn, func(ins ssa.Instruction) bool { return isReturn(ins) && ins.Block() != fn.Recover }, isCancel)
 		r.Check(name+" always cancels", w == nil, posOf(p, w), name, "a return of the transport's Close is reachable without cancel(): the transport is not marked closed, the loops redial after Close and later Reads/Writes block or succeed on a connection dialed after Close")
+	}
+}
+
+// ruleC18T10: reconnect(tr) is a no-op when tr is no longer the installed connection ("somebody already redialled").
+// That guard only works if each loop passes the connection its own Read/Write just failed on — the value it took out
+// of Transport.transport before the call — and not a fresh read of the field.
+func ruleC18T10(r *Run) {
+	r.Begin("T10", "reconnect is told which connection failed: in the read loop and the write loop the argument of reconnect is the very value the failing Read/Write was invoked on", 2)
+	p := r.P
+	rc := r.method(rcPkg, "Transport", "reconnect")
+	if rc == nil {
+		return
+	}
+	n := 0
+	for _, site := range p.staticCallSites(rc) {
+		fn := site.Parent()
+		cc := instrCall(site)
+		if len(cc.Args) < 2 {
+			continue
+		}
+		n++
+		name := fnName(fn)
+		arg := canonVal(cc.Args[1])
+		ok := false
+		var ioName string
+		allInstrs(fn, func(ins ssa.Instruction) {
+			c, isCall := ins.(*ssa.Call)
+			if !isCall || !c.Call.IsInvoke() || (c.Call.Method.Name() != "Read" && c.Call.Method.Name() != "Write") {
+				return
+			}
+			if !dominatesInstr(c, site) {
+				return
+			}
+			ioName = c.Call.Method.Name()
+			if canonVal(c.Call.Value) == arg {
+				ok = true
+			}
+		})
+		r.Check(name+" reconnect argument", ok, posOf(p, site), name, "reconnect is called with "+pathOf(cc.Args[1]).String()+"; it must be the connection value on which "+ioName+" just failed (a fresh read of Transport.transport is the new connection once the other loop has redialled, and closing it tears the healthy connection down)")
+	}
+	if n == 0 {
+		r.Undecided("reconnect call sites", "none found")
+	}
+}
+
+// ruleC18T11: the read loop stops without redialling only for a deliberate end: the transport was closed, or the
+// peer closed normally. Any other close status (going away, internal error, abnormal) is a broken connection.
+func ruleC18T11(r *Run) {
+	r.Begin("T11", "only a normal close ends the read loop without a redial: in readLoop every errors.Is test of the Read error whose true edge reaches a return without passing reconnect names errors.ErrConnectionNormalClose", 1)
+	p := r.P
+	fn := r.method(rcPkg, "Transport", "readLoop")
+	rc := r.method(rcPkg, "Transport", "reconnect")
+	if fn == nil || rc == nil {
+		return
+	}
+	name := fnName(fn)
+	k := 0
+	allInstrs(fn, func(ins ssa.Instruction) {
+		c, ok := ins.(*ssa.Call)
+		if !ok || !isCallNamed(c, "/errors.Is", "errors.Is") || c.Referrers() == nil {
+			return
+		}
+		for _, ref := range *c.Referrers() {
+			ifs, isIf := ref.(*ssa.If)
+			if !isIf {
+				continue
+			}
+			// true edge reaches a return without reconnect?
+			w := reachesWithoutFromBlock(ifs.Block().Succs[0], func(x ssa.Instruction) bool { _, isRet := x.(*ssa.Return); return isRet },
+				func(x ssa.Instruction) bool {
+					cc, isC := x.(*ssa.Call)
+					return isC && cc.Call.StaticCallee() == rc
+				})
+			if w == nil {
+				continue
+			}
+			// the test decides: on its false edge the redial is still reachable
+			toRedial := reachesWithoutFromBlock(ifs.Block().Succs[1], func(x ssa.Instruction) bool {
+				cc, isC := x.(*ssa.Call)
+				return isC && cc.Call.StaticCallee() == rc
+			}, nil)
+			if toRedial == nil {
+				continue
+			}
+			k++
+			l := p.Leaves(c.Call.Args[1], provOpts{})
+			r.Check(fmt.Sprintf("%s quiet exit#%d", name, k), hasLeaf(l, "global:/errors.ErrConnectionNormalClose"), posOf(p, c), name, "the read loop ends without redialling when the Read error is ["+joinLeaves(l)+"]; only ErrConnectionNormalClose is a deliberate end of the connection")
+		}
+	})
+	if k == 0 {
+		r.Check(name+" quiet exits", true, p.pos(fn.Pos()), name, "no errors.Is test lets the read loop end without a redial")
 	}
 }
